@@ -1,0 +1,129 @@
+//go:build verif
+
+// Contracts for the deductive verifier in /verif (comment-only file; see /verif/DESIGN.md).
+
+package router
+
+// ---------------------------------------------------------------------------
+// Abstract meaning of a criterion (interface value): whether it is met and whether evaluating it fails.
+// Criteria are assumed deterministic and not to mutate routing tables (interface contract below, trusted).
+// ---------------------------------------------------------------------------
+
+//@ uninterp critMet(c Criterion, network protocol, req RequestInfo) bool
+//@ uninterp critFails(c Criterion, network protocol, req RequestInfo) bool
+
+//@ func (Criterion).Meet
+//@   trusted
+//@   params self, ctx, network, requestInfo
+//@   modifies nothing
+//@   ensures result0 == (critMet(self, network, requestInfo) && !critFails(self, network, requestInfo))
+//@   ensures isnil(result1) == !critFails(self, network, requestInfo)
+
+// A request is well formed when its target is a valid (non-zero) well-formed address.
+//@ pure reqOK(r RequestInfo) bool = conn.AddrWF(r.TargetAddr) && r.TargetAddr.IsValid()
+
+//@ func (InvertedCriterion).Meet
+//@   modifies nothing
+//@   ensures isnil(result1) == !critFails(c.Inner, network, requestInfo)
+//@   ensures result0 == (!critFails(c.Inner, network, requestInfo) && !critMet(c.Inner, network, requestInfo))
+
+//@ func (CriterionGroupOR).Meet
+//@   modifies nothing
+//@   ensures result0 ==> isnil(result1)
+//@   ensures result0 ==> (exists k int :: 0 <= k && k < len(g.Criteria) && critMet(g.Criteria[k], network, requestInfo) && (forall j int :: 0 <= j && j <= k ==> !critFails(g.Criteria[j], network, requestInfo)))
+//@   ensures (exists k int :: 0 <= k && k < len(g.Criteria) && critMet(g.Criteria[k], network, requestInfo) && (forall j int :: 0 <= j && j <= k ==> !critFails(g.Criteria[j], network, requestInfo)) && (forall j int :: 0 <= j && j < k ==> !critMet(g.Criteria[j], network, requestInfo))) ==> result0
+//@   ensures !isnil(result1) ==> (exists k int :: 0 <= k && k < len(g.Criteria) && critFails(g.Criteria[k], network, requestInfo) && (forall j int :: 0 <= j && j < k ==> !critMet(g.Criteria[j], network, requestInfo) && !critFails(g.Criteria[j], network, requestInfo)))
+//@   ensures (exists k int :: 0 <= k && k < len(g.Criteria) && critFails(g.Criteria[k], network, requestInfo) && (forall j int :: 0 <= j && j < k ==> !critMet(g.Criteria[j], network, requestInfo) && !critFails(g.Criteria[j], network, requestInfo))) ==> !isnil(result1)
+//@   loop 0 invariant forall j int :: 0 <= j && j <= rangeindex ==> !critMet(g.Criteria[j], network, requestInfo) && !critFails(g.Criteria[j], network, requestInfo)
+
+// Route.Match: conjunction of the criteria in order; the first criterion that is not met decides, and its error (if any) is returned.
+//@ func (*Route).Match
+//@   reveal routeMet, routeFails
+//@   modifies nothing
+//@   ensures result0 == routeMet(r, network, requestInfo)
+//@   ensures !isnil(result1) ==> routeFails(r, network, requestInfo)
+//@   ensures routeFails(r, network, requestInfo) ==> !isnil(result1)
+//@   ensures len(r.criteria) == 0 ==> result0
+//@   ensures result0 ==> isnil(result1)
+//@   ensures result0 == (forall k int :: 0 <= k && k < len(r.criteria) ==> critMet(r.criteria[k], network, requestInfo) && !critFails(r.criteria[k], network, requestInfo))
+//@   loop 0 invariant forall j int :: 0 <= j && j <= rangeindex ==> critMet(r.criteria[j], network, requestInfo) && !critFails(r.criteria[j], network, requestInfo)
+
+//@ func (*Route).TCPClient
+//@   modifies nothing
+//@   ensures isnil(r.tcpClient) ==> isnil(result0) && result1 == ErrRejected
+//@   ensures !isnil(r.tcpClient) ==> result0 == r.tcpClient && isnil(result1)
+
+//@ func (*Route).UDPClient
+//@   modifies nothing
+//@   ensures isnil(r.udpClient) ==> isnil(result0) && result1 == ErrRejected
+//@   ensures !isnil(r.udpClient) ==> result0 == r.udpClient && isnil(result1)
+
+// ---------------------------------------------------------------------------
+// Leaf criteria: each equals its documented predicate.
+// ---------------------------------------------------------------------------
+
+//@ func (NetworkTCPCriterion).Meet
+//@   modifies nothing
+//@   ensures result0 == (network == 0) && isnil(result1)
+
+//@ func (NetworkUDPCriterion).Meet
+//@   modifies nothing
+//@   ensures result0 == (network == 1) && isnil(result1)
+
+//@ func (SourcePortCriterion).Meet
+//@   modifies nothing
+//@   ensures result0 == (uint16(c) == requestInfo.SourceAddrPort.Port()) && isnil(result1)
+
+//@ func (DestPortCriterion).Meet
+//@   modifies nothing
+//@   ensures result0 == (uint16(c) == requestInfo.TargetAddr.Port()) && isnil(result1)
+
+//@ func (*SourcePortSetCriterion).Meet
+//@   modifies nothing
+//@   ensures isnil(result1)
+//@   ensures requestInfo.SourceAddrPort.Port() != 0 ==> result0 == portset.psHas(c, requestInfo.SourceAddrPort.Port())
+//@   ensures requestInfo.SourceAddrPort.Port() == 0 ==> !result0
+
+//@ func (*DestPortSetCriterion).Meet
+//@   modifies nothing
+//@   ensures isnil(result1)
+//@   ensures requestInfo.TargetAddr.Port() != 0 ==> result0 == portset.psHas(c, requestInfo.TargetAddr.Port())
+//@   ensures requestInfo.TargetAddr.Port() == 0 ==> !result0
+
+//@ func (SourcePortRangeSetCriterion).Meet
+//@   requires portset.prsWF(portset.PortRangeSet(c))
+//@   modifies nothing
+//@   ensures isnil(result1)
+
+//@ func (DestPortRangeSetCriterion).Meet
+//@   requires portset.prsWF(portset.PortRangeSet(c))
+//@   modifies nothing
+//@   ensures isnil(result1)
+
+//@ func (SourceServerCriterion).Meet
+//@   requires bitset.bsWF(bitset.BitSet(c)) && requestInfo.ServerIndex >= 0 && uint(requestInfo.ServerIndex) < bitset.BitSet(c).capacity
+//@   modifies nothing
+//@   ensures isnil(result1) && result0 == bitset.bsHas(bitset.BitSet(c), uint(requestInfo.ServerIndex))
+
+//@ func (DestDomainCriterion).Meet
+//@   requires reqOK(requestInfo)
+//@   ensures isnil(result1)
+//@   ensures requestInfo.TargetAddr.IsIP() ==> !result0
+
+//@ func (*DestIPCriterion).Meet
+//@   requires reqOK(requestInfo)
+//@   ensures isnil(result1)
+//@   ensures !requestInfo.TargetAddr.IsIP() ==> !result0
+
+// Route-level meaning (opaque outside (*Route).Match): all criteria met / evaluation fails at the first unmet criterion.
+//@ opaque routeMet(r *Route, network protocol, req RequestInfo) bool = forall k int :: 0 <= k && k < len(r.criteria) ==> critMet(r.criteria[k], network, req) && !critFails(r.criteria[k], network, req)
+//@ opaque routeFails(r *Route, network protocol, req RequestInfo) bool = exists k int :: 0 <= k && k < len(r.criteria) && critFails(r.criteria[k], network, req) && (forall j int :: 0 <= j && j < k ==> critMet(r.criteria[j], network, req) && !critFails(r.criteria[j], network, req))
+
+// Router.match: the first route (in order) that matches; an error of an earlier route is returned instead.
+// The last route is the default route and has no criteria, so the panic is unreachable.
+//@ func (*Router).match
+//@   requires len(r.routes) >= 1 && len(r.routes[len(r.routes) - 1].criteria) == 0
+//@   modifies nothing
+//@   loop 0 invariant forall j int :: 0 <= j && j <= rangeindex ==> !routeMet(addr(r.routes[j]), network, requestInfo) && !routeFails(addr(r.routes[j]), network, requestInfo) && len(r.routes[j].criteria) > 0
+//@   ensures isnil(result1) ==> (exists k int :: 0 <= k && k < len(r.routes) && result0 == addr(r.routes[k]) && routeMet(result0, network, requestInfo) && (forall j int :: 0 <= j && j < k ==> !routeMet(addr(r.routes[j]), network, requestInfo) && !routeFails(addr(r.routes[j]), network, requestInfo)))
+//@   ensures !isnil(result1) ==> isnil(result0) && (exists k int :: 0 <= k && k < len(r.routes) && routeFails(addr(r.routes[k]), network, requestInfo) && (forall j int :: 0 <= j && j < k ==> !routeMet(addr(r.routes[j]), network, requestInfo) && !routeFails(addr(r.routes[j]), network, requestInfo)))
